@@ -33,6 +33,11 @@ def _safe_import(name: str, *a: Any, **k: Any) -> Any:
 
 
 SAFE["__import__"] = _safe_import
+import builtins as _builtins
+for _n in dir(_builtins):
+    _c = getattr(_builtins, _n)
+    if isinstance(_c, type) and issubclass(_c, BaseException) and _n not in SAFE:
+        SAFE[_n] = _c  # the built-in exception classes are themselves
 PURE_STDLIB = {"re", "fnmatch", "string", "itertools", "functools", "collections", "math", "operator", "copy", "uuid", "ipaddress", "datetime", "base64", "typing"}
 
 
@@ -135,6 +140,27 @@ class Interp:
         except Exception as ex:
             raise AnalysisError(f"tabulation: cannot iterate {unparse(e)[:80]!r}: {type(ex).__name__}: {ex}")
 
+    def _handler_matches_value(self, h: ast.ExceptHandler, ex: "_Raised") -> bool:
+        """except <name>: where the name is a local or parameter bound to an exception class (or a tuple of them)."""
+        import builtins
+        if h.type is None or not isinstance(h.type, (ast.Name, ast.Tuple)):
+            return False
+        names = [t for t in (h.type.elts if isinstance(h.type, ast.Tuple) else [h.type]) if isinstance(t, ast.Name) and t.id in self.env]
+        rname = str(ex).split("(")[0].strip().split(".")[-1]
+        rc = getattr(builtins, rname, None)
+        for t in names:
+            v = self.env[t.id]
+            for c in (v if isinstance(v, tuple) else (v,)):
+                if not isinstance(c, type):
+                    continue
+                if getattr(ex, "exc", None) is not None and isinstance(ex.exc, c) and type(ex.exc) is not Exception:
+                    return True
+                if c.__name__ == rname:
+                    return True
+                if isinstance(rc, type) and issubclass(c, BaseException) and issubclass(rc, c):
+                    return True
+        return False
+
     def _iterate(self, e: ast.AST) -> Any:
         """The values of the iterable of a for statement, taken one by one as the loop runs (the body may change the
         iterable; the groups of itertools.groupby are only valid until the next one is asked for)."""
@@ -183,6 +209,7 @@ class Interp:
             else:
                 vals.update(extra)
             env.update(vals)
+            env["__function_node__"] = fd
             sub = Interp(env, outer.max_steps, outer.behaviours[3:])
             is_gen = _own_yield(fd)
             try:
@@ -412,7 +439,7 @@ class Interp:
                     self.run(s.body)
                 except _Raised as ex:
                     for h in s.handlers:
-                        if _handler_matches(h, ex):
+                        if _handler_matches(h, ex) or self._handler_matches_value(h, ex):
                             if h.name:
                                 if getattr(ex, "exc", None) is None:
                                     ex.exc = Exception(str(ex))
@@ -427,6 +454,14 @@ class Interp:
                         raise
                 else:
                     self.run(s.orelse)
+            elif isinstance(s, (ast.Nonlocal, ast.Global)):
+                # a nested function sees a copy of the enclosing bindings: objects are shared (errors.append works), a
+                # rebinding would not reach the enclosing scope — refuse a function that rebinds such a name
+                fn_node = self.env.get("__function_node__")
+                scope = fn_node if fn_node is not None else None
+                if scope is None or any(isinstance(x, ast.Name) and isinstance(x.ctx, ast.Store) and x.id in s.names for x in ast.walk(scope)) or \
+                        any(isinstance(x, ast.AugAssign) and isinstance(x.target, ast.Name) and x.target.id in s.names for x in ast.walk(scope)):
+                    raise AnalysisError(f"tabulation: nonlocal/global name rebound at line {s.lineno}")
             elif isinstance(s, ast.Raise):
                 cur = getattr(self, "_handling", None)
                 if s.exc is None and cur is not None:  # bare raise inside a handler: the handled exception again
